@@ -366,17 +366,22 @@ func runCheck(id, tier string) int {
 		r *obligResult
 	}
 	var refs []vref
-	seen := map[string]bool{}
+	seenN := map[string]int{}
 	for _, r := range results {
 		if r.E == nil {
 			continue
 		}
 		for _, v := range r.E.Violations {
+			if os.Getenv("VERIF_ALLVIOL") != "" {
+				fmt.Printf("  cex %s [%s] %s %s\n", v.ID, v.Finding, boundsStr(r.O), modelStr(v.Model))
+			}
 			k := v.ID + "|" + v.Finding
-			if seen[k] {
+			// replay up to 6 counterexamples per obligation (at most 2 per shape)
+			if seenN[k] >= 6 || seenN[k+"|"+boundsStr(r.O)] >= 2 {
 				continue
 			}
-			seen[k] = true
+			seenN[k]++
+			seenN[k+"|"+boundsStr(r.O)]++
 			cases = append(cases, replayCase{Property: id, Obligation: v.ID, Finding: v.Finding, Harness: r.O.Harness, Globals: r.O.Globals, Model: v.Model})
 			refs = append(refs, vref{v, r})
 		}
@@ -394,12 +399,19 @@ func runCheck(id, tier string) int {
 	nViol := 0
 	var knownSeen []string
 	vsamples := map[string]map[string]string{}
+	nameCount := map[string]int{}
+	reported := map[string]bool{}
 	for i, c := range cases {
 		name := c.Obligation
 		if c.Finding != "" {
 			name += "." + c.Finding
 		}
-		path := filepath.Join(verifDir, "replays", id, sanitize(name)+".json")
+		nameCount[name]++
+		suffix := ""
+		if nameCount[name] > 1 {
+			suffix = fmt.Sprintf(".%d", nameCount[name])
+		}
+		path := filepath.Join(verifDir, "replays", id, sanitize(name)+suffix+".json")
 		b, _ := json.MarshalIndent(c, "", " ")
 		os.WriteFile(path, b, 0o644)
 		reproduced := false
@@ -419,6 +431,8 @@ func runCheck(id, tier string) int {
 		switch {
 		case rerr != nil:
 			inconclusive = append(inconclusive, name+": counterexample found but replay could not run")
+		case reported[name] && reproduced:
+			// a further reproduced counterexample of an obligation already reported
 		case !reproduced:
 			fmt.Printf("UNREPRODUCED obligation=%s model=%v (%s)\n", name, c.Model, detail)
 			inconclusive = append(inconclusive, name+": solver counterexample did not reproduce natively (encoding or summary defect)")
@@ -431,12 +445,14 @@ func runCheck(id, tier string) int {
 			}
 			fmt.Printf("KNOWN-FINDING: property=%s %s [obligation %s, e.g. %s]\n", id, what, c.Obligation, modelStr(c.Model))
 			knownSeen = append(knownSeen, c.Finding)
+			reported[name] = true
 		default:
 			fmt.Printf("VIOLATION property=%s replay=%s\n", id, path)
 			fmt.Printf("  obligation %s fails for %s (%s)\n", c.Obligation, modelStr(c.Model), detail)
 			vsamples[c.Obligation] = c.Model
 			nViol++
 			exit = 1
+			reported[name] = true
 		}
 	}
 
